@@ -936,7 +936,31 @@ pub fn execute(t: &WorldTrace, stats: &mut Stats) -> RunReport {
     let nontrivial = t.variants.len() >= 2
         && (!t.world.decls.is_empty() || t.variants.iter().any(|v| v.files.iter().any(|f| f.raw.is_some())))
         && (t.prop != "C03" || t.mode == "clash" || obs.first().map(|o| o.failed()).unwrap_or(false));
-    RunReport { violations, nontrivial }
+    // fault-free executions of the command line can be cross-checked against the shipped binary
+    let mut proc_cases = vec![];
+    if t.prop == "C13" {
+        for (v, o) in t.variants.iter().zip(&obs) {
+            let cmd = match v.entry {
+                Entry::Check => "check",
+                Entry::Echo => "echo",
+                Entry::Tokenize => "tokenize",
+                _ => continue,
+            };
+            if !matches!(v.role.as_str(), "dir" | "files" | "mix" | "parts") || matches!(o.outcome, Outcome::Panic(_)) {
+                continue;
+            }
+            proc_cases.push(crate::proc_check::ProcCase::Cli {
+                run_index: 0,
+                label: format!("{} {}", v.role, world_kind(&t.world)),
+                files: v.files.iter().map(|f| (f.name.clone(), file_bytes(&t.world, f))).collect(),
+                cmd: cmd.to_string(),
+                args: v.args.clone(),
+                predicted_ok: !o.failed(),
+                predicted_codes: o.codes(),
+            });
+        }
+    }
+    RunReport { violations, nontrivial, proc_cases }
 }
 
 pub fn generate(prop: &str, rng: &mut Rng, thorough: bool, run_index: u64) -> WorldTrace {
